@@ -30,6 +30,7 @@ func HarnessEnvironmentFollowsTaskVerdict() {
 	}
 	env.workflow = workflow.NewAggregatorRole("root", roles)
 	workflow.LinkChildrenToParents(env.workflow)
+	workflow.VerifAttach(env.workflow, env.wfAdapter)
 	tm := fenvTaskman(rec, env, func(n int) bool { return tasksFail })
 	var tr Transition
 	switch ev {
